@@ -13,7 +13,8 @@
          still record is being released by the deleting operation;
      (c) every address returned by a completed assign was recorded for the caller's handle by a successful
          write of that same operation (or, with MaxAllocToHandlePerIPVersion, was read by that operation as already
-         recorded for the handle in a written block), and is not recorded for anybody else when the call returns;
+         recorded for the handle in a written block), and is not recorded for anybody else when the call returns unless
+         a release naming the address (by any client) ran while the operation was in progress;
      (d) whenever no operation is in flight and no client has crashed, for every handle and block
          handle.Block[b] = number of ordinals of b owned by the handle. *)
 From Coq Require Import List NArith Bool Arith.
@@ -222,6 +223,8 @@ Record ostate := {
   os_inflight : list bool;        (* per client: has taken a step of its current operation *)
   os_crashed : bool;
   os_taken : list (list N);       (* per client: addresses its writes allocated during the current operation *)
+  os_freed : list (list N);       (* per client: addresses that ANY write freed while its current operation was running
+                                     (a release by somebody else ends this operation's claim on the address) *)
   os_seen : list (list N)         (* per client (MaxAlloc operations): addresses it has read as recorded for its handle in a
                                      written block during the current operation *)
 }.
@@ -231,6 +234,11 @@ Definition cur_op (c : case) (st : ostate) (i : nat) : option op :=
   | Some (_, ops) => nth_error ops (nth i (os_opidx st) O)
   | None => None
   end.
+
+Definition newly_freed (size : nat) (old : block) (new : option block) : list N :=
+  map (fun i => bk_cidr old + N.of_nat i)
+      (filter (fun i => match owner_of old i, (match new with Some b => owner_of b i | None => None end) with
+                        | Some _, None => true | _, _ => false end) (seq 0 size)).
 
 Definition newly_taken (size : nat) (old : option block) (new : block) : list N :=
   map (fun i => bk_cidr new + N.of_nat i)
@@ -246,12 +254,15 @@ Definition owner_at (cf : config) (d : list (key * value)) (a : N) : option attr
 (* (c) for one completed operation *)
 Definition returned_ok (cf : config) (st : ostate) (i : nat) (o : op) (r : result) : bool :=
   let taken := nth i (os_taken st) [] in
+  let freed := nth i (os_freed st) [] in
   let chk (h : N) (a : N) :=
     existsb (N.eqb a) taken &&
-    match owner_at cf (os_store st) a with
-    | Some x => optN_eqb (at_handle x) (Some h)
-    | None => true    (* freed again by a release that ran in between *)
-    end in
+    (existsb (N.eqb a) freed    (* released by somebody (frame clause: a release naming it) while this operation ran:
+                                   whatever happened to the address afterwards is not this operation's doing *)
+     || match owner_at cf (os_store st) a with
+        | Some x => optN_eqb (at_handle x) (Some h)
+        | None => true
+        end) in
   let seen := nth i (os_seen st) [] in
   (* MaxAlloc: an address may also be one the handle already had, as read from a written block by this operation *)
   let chkm (h : N) (a : N) := chk h a || existsb (N.eqb a) seen in
@@ -283,8 +294,8 @@ Definition oracle_step (c : case) (st : ostate) (o : obs) : option ostate :=
   let opn := cur_op c st i in
   let executed := is_write (o_kind o) && ores_eqb (o_res o) XOk in
   (* 1. the write itself *)
-  let w : option (list (key * value) * list N) :=
-    if negb executed then Some (os_store st, []) else
+  let w : option (list (key * value) * list N * list N) :=
+    if negb executed then Some (os_store st, [], []) else
     match o_key o with
     | None => None
     | Some k =>
@@ -300,8 +311,8 @@ Definition oracle_step (c : case) (st : ostate) (o : obs) : option ostate :=
                                                | Some o_ => op_may_free o_ (bk_cidr b + N.of_nat i) x
                                                | None => false end
                                    | None => true end) (seq 0 size)
-              then Some (dremove (os_store st) k, []) else None
-          | Some _ => Some (dremove (os_store st) k, [])
+              then Some (dremove (os_store st) k, [], newly_freed size b None) else None
+          | Some _ => Some (dremove (os_store st) k, [], [])
           | None => None
           end
       | _, Some (VBlock nb) =>
@@ -312,18 +323,20 @@ Definition oracle_step (c : case) (st : ostate) (o : obs) : option ostate :=
                     | None => blk_empty nb
                     end in
           if okk && wf_block_b size nb && fr
-          then Some (dset (os_store st) k (VBlock nb), newly_taken size oldb nb) else None
-      | _, Some v => Some (dset (os_store st) k v, [])
+          then Some (dset (os_store st) k (VBlock nb), newly_taken size oldb nb,
+                     match oldb with Some b => newly_freed size b (Some nb) | None => [] end) else None
+      | _, Some v => Some (dset (os_store st) k v, [], [])
       | _, None => None
       end
     end in
   match w with
   | None => None
-  | Some (d, taken) =>
+  | Some (d, taken, freed) =>
     let st1 := {| os_store := d; os_opidx := os_opidx st;
                   os_inflight := set_nth_opt (os_inflight st) i true;
                   os_crashed := os_crashed st || match o_fault o with FCrashBefore | FCrashAfter => true | _ => false end;
                   os_taken := set_nth_opt (os_taken st) i (nth i (os_taken st) [] ++ taken);
+                  os_freed := map (fun l => l ++ freed) (os_freed st);
                   os_seen :=
                     match o_kind o, o_key o, op_m_handle opn with
                     | OGet, Some (KBlock c'), Some h =>
@@ -346,6 +359,7 @@ Definition oracle_step (c : case) (st : ostate) (o : obs) : option ostate :=
                            os_inflight := set_nth_opt (os_inflight st1) i false;
                            os_crashed := os_crashed st1;
                            os_taken := set_nth_opt (os_taken st1) i [];
+                           os_freed := set_nth_opt (os_freed st1) i [];
                            os_seen := set_nth_opt (os_seen st1) i [] |}
               else None
           | None => None
@@ -370,7 +384,7 @@ Fixpoint oracle_run (c : case) (st : ostate) (os : list obs) : bool :=
 Definition ok_trace (c : case) : bool :=
   let n := length (c_clients c) in
   oracle_run c {| os_store := []; os_opidx := repeat O n; os_inflight := repeat false n;
-                  os_crashed := false; os_taken := repeat [] n; os_seen := repeat [] n |} (c_obs c).
+                  os_crashed := false; os_taken := repeat [] n; os_freed := repeat [] n; os_seen := repeat [] n |} (c_obs c).
 
 Definition check_case (c : case) : bool * bool := (model_agrees c, ok_trace c).
 
